@@ -74,6 +74,10 @@ def _gen_case_a(seed: int, tier: str, index: int) -> Dict[str, Any]:
                     delays.append(round(rng.choice([0.002, 0.02, 0.05, 0.3, rng.uniform(0, 1.5)]), 4))
             per_bcast.append(delays)
         responders.append({"ip": f"10.0.0.{20 + i}", "ident": ident, "name": name, "replies": per_bcast})
+        if rng.random() < 0.25:
+            # the reply's UDP source port is not the well-known one (a spa behind a port-forward, a simulator on another port): the
+            # address of a spa is where its reply came from
+            responders[-1]["reply_port"] = rng.choice([10023, 40022, 1])
     filt = rng.choice(["none", "none", "ident", "ident_absent", "address", "address+ident", "address_wrong_ident", "address_nobody",
                        "empty_strings", "empty_ident", "empty_address"])
     more = []
@@ -99,6 +103,7 @@ class HelloResponder:
         self.world = world
         self.spec = spec
         self.addr = (spec["ip"], SPA_PORT)
+        self.reply_addr = (spec["ip"], spec.get("reply_port", SPA_PORT))
         self.ident = spec["ident"].encode("latin1")
         self.name = spec["name"]
         # the reply is built here, independently of the library's encoder: <HELLO>identifier|name</HELLO>, name in latin-1
@@ -115,7 +120,7 @@ class HelloResponder:
         if k >= len(replies):
             return
         for d in replies[k]:
-            self.world.loop.call_later(d, self.world.net.send, self.addr, src, self.payload)
+            self.world.loop.call_later(d, self.world.net.send, self.reply_addr, src, self.payload)
 
     def stop(self) -> None:
         self.world.net.unbind(self.addr)
@@ -283,8 +288,11 @@ async def scenario(world: WorldA) -> None:
                 world.violate(PROP, "phantom-spa", f"listed {ident!r} but no reply of it had arrived by the time discovery returned ({ctx})")
             if d.name != name:
                 world.violate(PROP, "name-mangled", f"spa {ident!r} listed with name {d.name!r}, it sent {name!r} ({ctx})")
-            if tuple(d.destination) != (ip, SPA_PORT):
-                world.violate(PROP, "address-mangled", f"spa {ident!r} listed at {d.destination}, it answered from {(ip, SPA_PORT)} ({ctx})")
+            came_from = tuple(first_by_ident[ident][2])
+            if came_from[1] != SPA_PORT:
+                res.probe("reply_from_another_port")
+            if tuple(d.destination) != came_from:
+                world.violate(PROP, "address-mangled", f"spa {ident!r} listed at {d.destination}, it answered from {came_from} ({ctx})")
         must = [ident for ident, (t, h, src) in first_by_ident.items()
                 if passes(src[0], ident) and h + P + stall <= T_ret]
         for ident in must:
@@ -372,7 +380,7 @@ ASSUMPTIONS = [
     "the hello consumer takes one queued reply per polling interval; 'answered by the time of return' allows that service time",
     "two spas never share an identifier",
 ]
-PROBES = ["discovery_in_active_mode", "discovery_in_active_mode_shipped_tables", "blocking_locator", "identifier_given_as_bytes", "second_discovery_in_one_process", "name_with_separator", "duplicate_replies", "reply_after_return", "nothing_listed", "three_or_more_listed", "returned_on_requested_spa"]
+PROBES = ["reply_from_another_port", "discovery_in_active_mode", "discovery_in_active_mode_shipped_tables", "blocking_locator", "identifier_given_as_bytes", "second_discovery_in_one_process", "name_with_separator", "duplicate_replies", "reply_after_return", "nothing_listed", "three_or_more_listed", "returned_on_requested_spa"]
 N_QUICK = 60000
 
 
